@@ -4,8 +4,9 @@ C12 — property theorems: reading is total and inverse to writing.
 Model: `Lex.lean` / `Parse.lean` / `Write.lean` (Steel's lexer, the datum parser `(read)` uses, the
 writer `(write)` uses), tied to /repo on every run by the differential check.
 
-  * `read_total`, `spans_in_bounds`, `tokens_in_order` — the reader is total and every token /
-                                       error span satisfies start ≤ end ≤ utf8Len src;
+  * `read_total_partial`, `spans_in_bounds`, `tokens_in_order` — every token / error span of the model
+                                       reader satisfies start ≤ end ≤ utf8Len src (PARTIAL: the model's
+                                       artificial outcomes `outOfFuel` / `unmodelled` are not excluded);
   * `ReadWrite`                      — the full statement of the property (all representable data);
   * `read_write_partial`             — `ReadWrite` restricted to the decidable class `WFD`
                                        (`Model.lean`), proved by induction over ALL such data: any
@@ -31,12 +32,30 @@ namespace SteelVerif.C12
 theorem spans_in_bounds (src : Text) : ∀ it ∈ lex src, it.s ≤ it.e ∧ it.e ≤ utf8Len src :=
   lex_spans src
 
+/-- non-vacuity: a text with multi-byte characters; four tokens, byte (not character) offsets, the last one
+    ends at `utf8Len` = 9 (the text has 7 characters) -/
+example : (lex t!"(é \"λ\")").map (fun it => (it.s, it.e)) = [(0, 1), (1, 3), (4, 8), (8, 9)] ∧
+    utf8Len t!"(é \"λ\")" = 9 := by decide
+/-- … and a lexer error item with its span -/
+example : lex t!"a #\\foo" = [.tok (.ident t!"a") 0 1, .err .invalidCharName 2 7] := by decide
+
 /-- tokens are reported in the order of their start offsets -/
 theorem tokens_in_order (src : Text) : TokSorted 0 (lex src) := lex_sorted src
 
-/-- `read_total`: on every text the reader returns data or an error (it is a total function), and
-    the error's span satisfies `start ≤ end ≤ utf8Len src`. -/
-theorem read_total (src : Text) :
+example : TokSorted 0 (lex t!"(é \"λ\")") ∧ (lex t!"(é \"λ\")").length = 4 := ⟨tokens_in_order _, by decide⟩
+
+/-- PARTIAL.  On every text the model reader returns data or an error whose span satisfies
+    `start ≤ end ≤ utf8Len src`.
+    What this does NOT say (MISSING for "the reader accepts or rejects every text without failing itself"):
+    * the first disjunct-or-second is true of ANY Lean function into `Except` — totality of the MODEL is by
+      construction; a panic/abort of the real reader is not expressible here and is looked for by the
+      differential run only;
+    * the error may be the model's artificial `outOfFuel` (span `(0,0)`, trivially in bounds) or
+      `unmodelled` (`@doc` comments): that the fuel `2·len+2` / `4·tokens+4` always suffices is NOT proved
+      (it is proved implicitly for texts `write d`, `WFD d`, by `read_write_partial`), so a model that gave
+      up on every hard text would satisfy this statement too;
+    * that span ends fall on character boundaries. -/
+theorem read_total_partial (src : Text) :
     (∃ ds, read src = .ok ds) ∨ (∃ e, read src = .error e ∧ e.s ≤ e.e ∧ e.e ≤ utf8Len src) := by
   have h := readLoop_total (utf8Len src) ((lex src).length + 1) {} [] (lex src) 0 (lex_itemsOK src) (lex_sorted src)
   unfold read
@@ -50,6 +69,19 @@ theorem read_total (src : Text) :
 /-- non-vacuity: errors do occur, with a span that points into the text -/
 example : read t!"(1 . )" = .error ⟨.syntax .dotCdr, 3, 4⟩ := rfl
 example : read t!"\"ab" = .error ⟨.eof, 0, 3⟩ := rfl
+
+/-- the theorem applied (every hypothesis instantiated — there is none besides the text) -/
+example : (∃ ds, read t!"(1 . )" = .ok ds) ∨
+    (∃ e, read t!"(1 . )" = .error e ∧ e.s ≤ e.e ∧ e.e ≤ utf8Len t!"(1 . )") := read_total_partial _
+/-- TEST (evaluation of nine hostile texts, not a general claim): none of them exhausts the model's fuel or
+    is `unmodelled` — unbalanced and nested delimiters, unterminated string / `|ident` / block comment,
+    datum comments, quote shorthands at the end of input, a lone `#`, a NUL, deep nesting -/
+example : [t!")", t!"((((", t!"\"abc\\", t!"|ab", t!"#| #| |#", t!"#;#;#;", t!"'`,@", t!"#", [Char.ofNat 0],
+    t!"(((((((((((((((((((((((((((((((())))))))))))))))))))))))))))))))"].all (fun src =>
+      match read src with
+      | .error ⟨.outOfFuel, _, _⟩ => false
+      | .error ⟨.unmodelled, _, _⟩ => false
+      | _ => true) = true := by decide
 
 /-! ## the full statement -/
 
@@ -119,12 +151,41 @@ def noPairss : List Datum → Bool
   | x :: xs => noPairs x && noPairss xs
 end
 
-/-- stage (iv): + proper lists, vectors and byte vectors of all of those, nested arbitrarily -/
+/-- non-vacuity of the stages (i)–(iii) (applied): a 20-digit negative integer, a string holding `"`, `\`,
+    NUL, DEL and non-ASCII, the characters NUL and U+10FFFF, a symbol with punctuation, a negative ratio -/
+example : read (write (.int (-12345678901234567890))) = .ok [.int (-12345678901234567890)] :=
+  read_write_partial_i.1 _
+example : read (write (.str ['"', '\\', Char.ofNat 0, Char.ofNat 0x7f, 'é', '\n'])) =
+    .ok [.str ['"', '\\', Char.ofNat 0, Char.ofNat 0x7f, 'é', '\n']] := read_write_partial_ii.1 _
+example : read (write (.chr (Char.ofNat 0))) = .ok [.chr (Char.ofNat 0)] ∧
+    read (write (.chr (Char.ofNat 0x10ffff))) = .ok [.chr (Char.ofNat 0x10ffff)] :=
+  ⟨read_write_partial_ii.2 _, read_write_partial_ii.2 _⟩
+example : read (write (.sym t!"set-car!->x?")) = .ok [.sym t!"set-car!->x?"] :=
+  read_write_partial_iii.1 _ (by decide)
+example : read (write (.rat (-3) 4)) = .ok [.rat (-3) 4] := read_write_partial_iii.2 _ _ (by decide) (by decide)
+/-- the guard `symOK` of stage (iii) does exclude names (see the `counter_*` theorems) -/
+example : symOK t!"a b" = false ∧ symOK [] = false ∧ symOK t!"12" = false ∧ symOK t!"+a" = false ∧
+    symOK t!"fn" = false := by decide
+
+/-- stage (iv): + proper lists, vectors and byte vectors of all of those, nested arbitrarily.
+    (A WEAKER restatement of `read_write_partial` — the extra hypothesis `noPairs` is not used; kept for the
+    stage numbering of the evidence.) -/
 theorem read_write_partial_iv (d : Datum) (h : WFD d) (_ : noPairs d = true) : read (write d) = .ok [d] :=
   read_write_partial d h
 
-/-- stage (v): + improper lists (pairs) and the quotation forms — the whole class `WFD` -/
+/-- stage (v): + improper lists (pairs) and the form `(quote d)` — the whole class `WFD`.
+    (IDENTICAL to `read_write_partial`; kept for the stage numbering of the evidence.  The quotation forms
+    `quasiquote`, `unquote`, `unquote-splicing` are NOT in `WFD`: `headOK` excludes them.) -/
 theorem read_write_partial_v (d : Datum) (h : WFD d) : read (write d) = .ok [d] := read_write_partial d h
+
+set_option maxRecDepth 100000 in
+/-- non-vacuity of stages (iv), (v) (applied): a vector of lists with a byte vector; a nested pair -/
+example : read (write (.vec [.list [.int 1, .list []], .bytes [0, 255], .str t!"x"])) =
+    .ok [.vec [.list [.int 1, .list []], .bytes [0, 255], .str t!"x"]] :=
+  read_write_partial_iv _ (by decide) (by decide)
+set_option maxRecDepth 100000 in
+example : read (write (.pair (.int 1) (.pair (.list [.sym t!"a"]) (.int 2)))) =
+    .ok [.pair (.int 1) (.pair (.list [.sym t!"a"]) (.int 2))] := read_write_partial_v _ (by decide)
 
 /-- `(quote d)` round-trips whenever `d` does and the nesting limit allows; likewise the other
     quotation forms are lists headed by a symbol and covered by `read_write_partial` when that
@@ -140,6 +201,15 @@ theorem read_write_quote (d : Datum) (h : WF d = true) (hd : d.depth + 1 ≤ 128
   · simp only [Datum.quote, Datum.depth, depths]
     omega
 
+set_option maxRecDepth 100000 in
+/-- non-vacuity (applied): `''(a "b")` as data -/
+example : read (write (Datum.quote (Datum.quote (.list [.sym t!"a", .str t!"b"])))) =
+    .ok [Datum.quote (Datum.quote (.list [.sym t!"a", .str t!"b"]))] :=
+  read_write_quote _ (by decide) (by decide)
+/-- the other quotation forms are outside `WFD` (their head steers the reader), e.g. `(quasiquote a)` -/
+example : ¬ WFD (Datum.quasiquote (.sym t!"a")) ∧ ¬ WFD (Datum.unquote (.sym t!"a")) ∧
+    ¬ WFD (Datum.unquoteSplicing (.sym t!"a")) := by decide
+
 /-! ## the writer's nesting counter -/
 
 /-- `write_depth_balanced`: `format_with_cycles` modelled with its mutable counter (`writeSt`: `depth += 1`
@@ -149,6 +219,10 @@ theorem read_write_quote (d : Datum) (h : WF d = true) (hd : d.depth + 1 ≤ 128
 theorem write_depth_balanced (d : Datum) (depth : Nat) :
     (writeSt d depth).2 = depth ∧ (writeSt d depth).1 = writeAt depth d := by
   rw [writeSt_eq d depth]; exact ⟨rfl, rfl⟩
+
+/-- non-vacuity (applied): a nested datum, counter started at 5 -/
+example : (writeSt (.list [.vec [.int 1], .pair (.int 2) (.int 3)]) 5).2 = 5 :=
+  (write_depth_balanced _ 5).1
 
 /-- the same for a sequence of siblings: after any number of elements the counter is unchanged -/
 theorem write_depth_balanced_seq (xs : List Datum) (depth : Nat) :
@@ -207,5 +281,45 @@ theorem not_ReadWrite : ¬ ReadWrite := by
   have h1 := h (.sym t!"a b") rfl
   rw [counter_symbol_needs_quoting] at h1
   cases h1
+
+/-! ## Clauses of the property not carried by a theorem -/
+
+/-
+What the theorems say, read together: the MODEL lexer/reader (`Lex.lean`, `Parse.lean`) reports, for every
+text (a list of Unicode scalar values), token spans and an error span with `start ≤ end ≤ utf8Len`
+(`spans_in_bounds`, `read_total_partial`), tokens in order of their start (`tokens_in_order`); and
+`read (write d) = [d]` (syntactic equality, stronger than `equal?`) for every datum of the class `WFD`:
+exact integers of any size, exact rationals, booleans, ALL characters, ALL strings, symbols whose name is a
+plain identifier (`symOK`), proper and improper lists, vectors, byte vectors and `(quote d)`, nested up to
+depth 128, no list/vector headed by `quasiquote`/`unquote`/`unquote-splicing` (`read_write_partial`).  The
+full statement `ReadWrite` is refuted for the model (`not_ReadWrite`, `counter_*`; open findings K12a–K12c).
+
+NOT carried by any theorem (covered only by the differential correspondence of checks/c12.py, or not at all):
+
+ * **"accepts or rejects every text without failing itself"** for the real reader: a panic, abort, stack
+   overflow or hang of Rust code is not expressible in the model; and for the model itself
+   `read_total_partial` does not exclude the artificial outcomes `outOfFuel` / `unmodelled`.
+ * **Byte strings** that are not valid UTF-8: `Text = List Char`.
+ * **Every reported location** other than token spans and the reader's error span: spans of AST nodes of
+   `Parser::parse` on success, spans attached to data by `(read)`, line/column information; that span ENDS
+   fall on character boundaries (needed for slicing the source in diagnostics).
+ * **Numbers of every kind**: inexact reals (decimal, exponent, `+inf.0`, `-inf.0`, `+nan.0`), complex
+   numbers, radix and exactness prefixes (`#x`, `#e`, `#i`) on the WRITE side: `Representable`/`WF` are
+   `false` on `.flo`/`.other`.  Only exact integers and reduced exact rationals round-trip by theorem.
+ * **Symbols with arbitrary names**: only `symOK` names; for names with delimiters/whitespace, the empty
+   name, numeric-looking names, names starting with `+`/`-`/`.`/`#`, `|`-quoted names and the aliases
+   `fn`/`defn`/`λ` the property is FALSE for the code that exists (K12a, K12b).
+ * **Quotation forms** other than `quote`: `(quasiquote d)`, `(unquote d)`, `(unquote-splicing d)` and the
+   `#'` syntax family as DATA are outside `WFD` (K12c shows one failing case; the others are untested here).
+ * **Nesting deeper than 128** (the writer prints `...`, K12d).
+ * **"printing a parsed program and parsing it again gives the same syntax tree"** (`parse ∘ pretty` on
+   `ExprKind`): no model of `Parser::parse`'s lowering nor of the pretty printer; executed only.
+ * **The writer of `scheme/print.scm`** (`write`/`display`/`print` implemented in Scheme with cycle labels)
+   and **`read` from ports** (`reader.scm`, incremental input, `(read)` returning one datum at a time):
+   `write` here is `Display for SteelVal` as reached by `(write d)` on acyclic data; cyclic/shared data with
+   datum labels are not modelled.
+ * **`@doc` comments** (`unmodelled`), `#;` inside quasi-quotation bookkeeping beyond what `Parse.lean` has.
+ * The stage theorems `read_write_partial_iv`/`_v` add nothing to `read_write_partial`.
+-/
 
 end SteelVerif.C12
